@@ -26,9 +26,17 @@
      C05_final_cost_partial   ... and v is the cost of the big-step script of the pair (ScriptModel.script) whenever
                         that yields one
      C05_quiet_irrelevant_partial   hence the two flag settings agree, whatever the two histories
-   partial: MultiSetEdit / the matcher / EditCollection (FixedKeyDictNodeEdit) / search have no model (holds_C05 on the
-   implementation's observations only); the theorem is about the final COST, the final SCRIPT is compared call by call
-   and as a whole by the correspondence run (corr_C05) only. *)
+   Mapping edits (added): ApiModel.v models MultiSetEdit + WeightedBipartiteMatcher (AMSet) and EditCollection /
+   FixedKeyDictNodeEdit (AColl) call by call - every bounds() read of an edge / pre-matched pair / sub-edit is a step of that
+   edit, the `matching` property (forced by edits(), by tighten_bounds() and by MultiSetEdit.tighten_bounds()) runs
+   _make_edges_distinct() itself when that has not happened, the lazy _edit_iter / _sub_edits / _cost memo / valid, listings,
+   sub-edits addressed through listings, the final nested script.  make_distinct's call counts and the solver's assignment
+   are oracle inputs keyed by (from_nodes, to_nodes) (initA orc), as for C04; the theorems quantify over orc.
+   These two classes are tied to the code by the correspondence run (corr_C05: call-by-call outcomes and final script) only:
+   partial: `covered a` (ApiProofs.covered) excludes documents containing a mapping (MSet / FDict node), because the class
+   invariants of MultiSetEdit / the matcher and of EditCollection / FixedKeyDictNodeEdit under AContract are NOT proved
+   (SI is False on AMSet / AColl); search has no model; the theorem is about the final COST, the final SCRIPT is compared
+   call by call and as a whole by the correspondence run only. *)
 From Coq Require Import ZArith List Bool.
 Require Import GT.Data GT.EdEngine GT.ScriptSpec GT.ScriptModel GT.MachineSpec GT.MachineModel GT.ApiSpec GT.ApiModel GT.ApiProofs.
 Import ListNotations.
@@ -70,7 +78,7 @@ Theorem C05_invariant : forall q d v (h : history) s, SI q d s v ->
   length (snd (run_hist q d h s)) = length h /\ finish_cost q d (fst (run_hist q d h s)) = Some v.
 Proof. exact si_history. Qed.
 
-Theorem C05_model_partial : forall a b s, initA a b = Some s -> exists v, 0 <= v /\
+Theorem C05_model_partial : forall orc a b s, covered a = true -> initA orc a b = Some s -> exists v, 0 <= v /\
   forall (quiet : bool) (h : history),
     existsb is_err (snd (run_hist quiet (aheight s) h s)) = false /\
     length (snd (run_hist quiet (aheight s) h s)) = length h /\
@@ -78,14 +86,14 @@ Theorem C05_model_partial : forall a b s, initA a b = Some s -> exists v, 0 <= v
 Proof. exact C05_model. Qed.
 
 (* ... and v is the cost of the big-step script (ScriptModel.script, the model of C01/C03) whenever that yields one *)
-Theorem C05_final_cost_partial : forall a b s O pa pb e, initA a b = Some s -> script O pa pb a b = OK e ->
+Theorem C05_final_cost_partial : forall orc a b s O pa pb e, covered a = true -> initA orc a b = Some s -> script O pa pb a b = OK e ->
   forall (quiet : bool) (h : history),
     existsb is_err (snd (run_hist quiet (aheight s) h s)) = false /\
     length (snd (run_hist quiet (aheight s) h s)) = length h /\
     finish_cost quiet (aheight s) (fst (run_hist quiet (aheight s) h s)) = Some (cost e).
 Proof. exact C05_model_cost. Qed.
 
-Theorem C05_quiet_irrelevant_partial : forall a b s, initA a b = Some s -> forall (h1 h2 : history),
+Theorem C05_quiet_irrelevant_partial : forall orc a b s, covered a = true -> initA orc a b = Some s -> forall (h1 h2 : history),
   finish_cost true (aheight s) (fst (run_hist true (aheight s) h1 s)) =
   finish_cost false (aheight s) (fst (run_hist false (aheight s) h2 s)).
 Proof. exact C05_quiet. Qed.
